@@ -30,7 +30,13 @@ per agent (process-global state and interleavings, the JSON path, key binding, t
 walk, issuer strategy handling, verifier unpacking, the mock build and utilities, use of the
 dependencies). Round 5: again eight focus areas (JSON value semantics and numbers; several credentials /
 issuers / holders in one process; time handling; size and resource guards; Unicode and text handling;
-the public API surface; digests and decoys; the parsers and their error paths). Every change was confirmed here
+the public API surface; digests and decoys; the parsers and their error paths). Round 6: eight more (interactions of two
+features that are each fine alone; data-structure and iteration-order changes; holders built from presentations and
+repeated narrowing; the deep semantics of Custom paths; the shape of the verifier's output; issuer identification
+and header handling; cleanup and error paths inside multi-step operations; numeric and positional bookkeeping
+across recursion), and for this round the checks *as they stood before the round* were additionally
+run against every change aimed at them (`SM_VERIF_SRC=<old checkout> tools/seedmatrix.sh`, results in
+`out/seedattr_r6`), so that "would have been missed" is measured, not judged. Every change was confirmed here
 (`tools/confirm_seed.sh` in a scratch worktree: demo passes without the change, 146/146 suite tests
 pass with it, demo fails with it) and run against all 16 quick checks in scratch copies
 (`tools/seedmatrix.sh`; `/repo` itself is never modified). Kept under `/verif/seeded/<name>/`
